@@ -264,6 +264,14 @@ def cases(tier, seed, rng):
     n = 600 if tier == 'quick' else 2500
     out = [Case(history(rng, tier), 'gen:dimdesc') for _ in range(n)]
     out += [Case(alias_history(rng, tier), 'gen:alias') for _ in range(60 if tier == 'quick' else 400)]
+    # an array that NEVER had a descriptor (or lost all of them) observed in a read-only session: 0 descriptors is an answer, not an error
+    for k in range(6 if tier == 'quick' else 40):
+        g = G(rng, tier)
+        L = list(g.lines) if k % 3 else [g.lines[0]]     # every third: not even ASKED for its descriptors before the read-only session
+        if k % 2 == 1 and k % 3:
+            g.lines = []; g.legal_append(); L += g.lines + ['dd_del', 'dd_obs']
+        L += ['dd_reopen ro', 'dd_obs', 'dd_reopen ro', 'dd_obs', 'dd_reopen rw', 'dd_obs']
+        out.append(Case(L, 'gen:no-descriptors-read-only'))
     return out
 
 def nontrivial(case, tags):
